@@ -4737,8 +4737,9 @@ class Generator:
         inverse_time_mapping: dict[str, str] | None = None,
         inverse_time_trie: dict | None = None,
     ) -> str | None:
+        # Rendered without the format's comments: the text is translated and compared with defaults
         return format_time(
-            self.sql(expression, "format"),
+            self.sql(expression.args.get("format"), comment=False),
             inverse_time_mapping or self.dialect.INVERSE_TIME_MAPPING,
             inverse_time_trie or self.dialect.INVERSE_TIME_TRIE,
         )
